@@ -43,7 +43,7 @@ theorem noAdjCharsNs_tail {k : NSNode} {ks : List NSNode} (h : noAdjCharsNs (k :
   | cons k2 rest => simp only [noAdjCharsNs, Bool.and_eq_true] at h; exact h.2
 
 /-- Start tag up to and including `>` / before `/>`: the state `open_element` is called in. -/
-theorem run_start_ns {b : Builder} {frames : List (List (Str × Str))} (hr : ReadyNs b frames) (pfx loc junk : StrSpan)
+theorem run_start_ns {b : Builder} {frames : List (List (Str × Str))} (pfx loc junk : StrSpan)
     (attrs : List NSAttr) (hw : attrsWellNs ((flatScope frames).push (declsOf attrs)) attrs)
     (tail : List Token) (lexErr : Option Nat) :
     b.run (.elementStart pfx loc junk :: (attrs.map NSAttr.token ++ tail)) lexErr =
@@ -75,7 +75,7 @@ theorem sim_node_ns : ∀ (sn : NSNode) (frames : List (List (Str × Str))), sn.
     refine ⟨?_, fun _ _ _ _ => headOk_emitNs_single rfl⟩
     intro rest lexErr
     simp only [NSNode.tokens, List.cons_append, List.append_assoc, List.nil_append]
-    rw [run_start_ns hr pfx loc junk attrs hwa]
+    rw [run_start_ns pfx loc junk attrs hwa]
     obtain ⟨hidA, hidK⟩ := hids.split
     obtain ⟨idn0, sp0, hopen⟩ := openElement_ns hr pfx loc attrs hwa hp hidA.1 hidA.2
     simp only [Builder.run, Builder.step, hopen]
@@ -101,7 +101,7 @@ theorem sim_node_ns : ∀ (sn : NSNode) (frames : List (List (Str × Str))), sn.
     refine ⟨?_, fun _ _ _ _ => headOk_emitNs_single (by simp [NPNode.encode, Tree.value, Value.isText])⟩
     intro rest lexErr
     simp only [NSNode.tokens, List.cons_append, List.append_assoc, List.nil_append]
-    rw [run_start_ns hr pfx loc junk attrs hwa]
+    rw [run_start_ns pfx loc junk attrs hwa]
     obtain ⟨idn0, sp0, hopen⟩ := openElement_ns hr pfx loc attrs hwa hp hids.1 hids.2
     simp only [Builder.run, Builder.step, hopen, closeImmediate_openedNs b hr.eb]
     exact ⟨_, _, rfl⟩
